@@ -185,6 +185,44 @@ def judge(plan, r, ref):
     return None, "", fired
 
 
+EXT = {"ao": ".ao", "fm": ".fm", "c": ".c", "lsp": ".lsp", "asy": ".asy", "ap": ".ap", "ai": ".ai"}
+
+
+def other_directory_cases(binfo, scratch):
+    """No injected fault, an independent expectation: a saved form (.fm / .ao) that lies in
+    ANOTHER directory is compiled together with a source; on exit 0 every requested kind
+    must exist for every unit in the working directory.  Returns a list of
+    (verdict or None, detail, description)."""
+    out = []
+    y = b'#include "axllib"\nprint << "yo" << newline;\n'
+    for kind, classes in (("fm", ["fm", "lsp", "c"]), ("ao", ["ao", "c", "lsp"])):
+        w = scratch.new()
+        r0 = worlds.compile_world(binfo, w, {"x.as": worlds.HELLO}, ["-Fao", "-Ffm"], ["x.as"], cpu=60)
+        sb = os.path.join(w, "sb")
+        sub = os.path.join(sb, "sub")
+        os.makedirs(sub, exist_ok=True)
+        with open(os.path.join(sub, "y.as"), "wb") as f:
+            f.write(y)
+        argv = [binfo["aldor"]] + buildlib.aldor_args() + flags(classes) + ["../x." + kind, "y.as"]
+        r = vsim.run_world(binfo, argv, ["fs root " + sb], w, cwd=sub, cpu=60, collect=False)
+        have = set(os.listdir(sub))
+        desc = "aldor %s ../x.%s y.as (in a sub-directory)" % (" ".join(flags(classes)), kind)
+        verdict, detail = None, ""
+        fc = worlds.fault_class(r)
+        if fc:
+            verdict, detail = fc, (r.out + r.err)[-200:].decode("latin-1", "replace")
+        elif r.rc == 0:
+            missing = [u + EXT[c] for u in ("x", "y") for c in classes
+                       if (u + EXT[c]) not in have or os.path.getsize(os.path.join(sub, u + EXT[c])) == 0]
+            if missing:
+                verdict, detail = "exit0-missing-output", "exit 0 but %s not written" % ", ".join(missing)
+        elif not worlds.has_diag(r):
+            verdict, detail = "silent-refusal", "exit %r without a diagnostic" % r.rc
+        out.append((verdict, detail, desc, kind))
+        vsim.cleanup_world(w)
+    return out
+
+
 def vkey(verdict, plan, detail):
     kinds = "+".join(sorted(set(ev["k"] for ev in plan)))
     cls = "+".join(sorted(set(ev.get("c", "dir") for ev in plan)))
@@ -200,6 +238,13 @@ def main(argv):
     classes = list(ALL)
 
     with vsim.Scratch("c18") as scratch:
+        if replay and "other_directory" in json.load(open(replay)):
+            od = [x for x in other_directory_cases(binfo, scratch) if x[3] == json.load(open(replay))["other_directory"]]
+            vsim.say("replay: %s" % [(v, d) for v, d, _, _ in od])
+            if any(v for v, _, _, _ in od):
+                vsim.say("VIOLATION property=%s replay=%s" % (PID, replay))
+                return 1
+            return 0
         if replay:
             rp = json.load(open(replay))
             text = rp["source"].encode("latin-1") if isinstance(rp["source"], str) else [x.encode("latin-1") for x in rp["source"]]
@@ -346,6 +391,19 @@ def main(argv):
                 "other_failing_plans": len(ids) - 1})
             out.violations.append({"key": key, "cls": v2, "detail": d2, "replay": rp})
 
+        # ---- saved forms in another directory (independent expectation, no fault) -----------
+        od = other_directory_cases(binfo, scratch)
+        for verdict, detail, desc, kind in od:
+            if not verdict:
+                continue
+            key = "%s:other-directory-input:%s" % (verdict, kind)
+            text = out.classify(key)
+            if text is not None:
+                out.known.append({"key": key, "text": text})
+                continue
+            rp = vsim.write_replay(PID, "seed%d-otherdir-%s" % (seed, kind), {"property": PID, "seed": seed, "other_directory": kind,
+                                   "command": desc, "verdict": verdict, "detail": detail, "key": key, "source_key": binfo["key"]})
+            out.violations.append({"key": key, "cls": verdict, "detail": desc + ": " + detail, "replay": rp})
         wall = time.time() - t0
         cov = {
             "evaluations": done,
@@ -354,6 +412,7 @@ def main(argv):
             "samples": [{"program": progs[cases[i][0]][0], "plan": cases[i][1]} for i in range(0, done, max(1, done // 4))][:5],
             "programs": len(progs), "program_names": ["%s[%s]" % (p[0] if isinstance(p[0], str) else "+".join(p[0]), "+".join(p[3])) if len(p[3]) < 5 else p[0] for p in progs], "programs_skipped_not_compiling": skipped,
             "output_classes": classes + ["h (with -Csmax=5, second configuration)"],
+            "other_directory_input_cases": [{"command": d, "verdict": v or "ok"} for v, _, d, _ in od],
             "plans_planned": len(cases), "plans_run": done,
             "faults_configured": configured, "faults_fired": fired_n,
             "fault_free_plans": sum(1 for c in cases[:done] if not c[1]),
